@@ -26,11 +26,12 @@ Theorem c04_ack_exactly_once : forall fl cap pre evs,
 Proof. intros fl cap pre evs H. exact (ack_exactly_once current fl cap pre evs H eq_refl). Qed.
 Print Assumptions c04_ack_exactly_once.
 
-(* ... and once a flush succeeds (for instance the first one after the stream resumed) nothing is
+(* (has_closing evs = false: neither the stream nor its connection has been closed in evs)
+   ... and once a flush succeeds (for instance the first one after the stream resumed) nothing is
    pending: every chunk returned so far is acknowledged, every alias issued so far announced,
    whatever sends failed before. *)
 Theorem c04_acked_after_successful_flush : forall fl cap pre evs,
-  small_history pre (evs ++ [AckTick true]) -> has_close evs = false ->
+  small_history pre (evs ++ [AckTick true]) -> has_closing evs = false ->
   let r := drun (dinit current fl cap pre) (evs ++ [AckTick true]) in
   ack_results (sent_acks_of (snd r)) = read_results (snd r) /\
   ack_ups (sent_acks_of (snd r)) = minted_ups (snd r) /\
@@ -46,6 +47,18 @@ Theorem c04_nothing_returned_after_close : forall fl cap pre evs post,
   returned_metas (metas_of (snd (drun s1 post))) = [].
 Proof. intros fl cap pre evs post. exact (no_read_after_close current fl cap pre evs post eq_refl). Qed.
 Print Assumptions c04_nothing_returned_after_close.
+
+(* The same when the CONNECTION is closed under the stream (Conn.Close or any connection-level
+   close: the stream context is cancelled, no close request is sent): however many chunks are still
+   queued, no later ReadDataPoints / ReadMetadata hands anything out, and no ack or close request
+   follows - so a chunk can never be returned without a chance of being acknowledged. *)
+Theorem c04_no_chunk_after_conn_close : forall fl cap pre evs b post,
+  let s1 := fst (drun (dinit current fl cap pre) (evs ++ [ConnClose b])) in
+  read_results (snd (drun s1 post)) = [] /\ consumed_of (snd (drun s1 post)) = [] /\
+  returned_metas (metas_of (snd (drun s1 post))) = [] /\ acks_of (snd (drun s1 post)) = [] /\
+  closereqs_of (snd (drun s1 post)) = 0.
+Proof. intros fl cap pre evs b post. exact (no_read_after_conn_close current fl cap pre evs b post eq_refl). Qed.
+Print Assumptions c04_no_chunk_after_conn_close.
 
 (* Ack ids: the acks handed to the transport are numbered 1, 2, 3, ... (State().LastIssuedChunkAckID
    is their number); a failed send consumes its id, so the ids of the acks the broker receives
@@ -112,7 +125,7 @@ Print Assumptions c04_announce_once.
    every alias issued so far; exactly one close request is emitted; no ack and no further close
    request follows it, whatever happens afterwards. *)
 Theorem c04_close_order : forall fl cap pre evs post,
-  small_history pre (evs ++ Close :: post) -> has_close evs = false ->
+  small_history pre (evs ++ Close :: post) -> has_closing evs = false ->
   let s0 := dinit current fl cap pre in
   let o1 := snd (drun s0 evs) in
   exists mid tail,
